@@ -1126,10 +1126,15 @@ func run(c *hx.Ctx) {
 			res.Count("corpus-histories")
 		}
 	}
-	n := c.Scale(280, 4000)
+	n := c.Scale(250, 4000)
 	for i := 0; i < n; i++ {
 		r := c.R.Fork()
 		doCase(genCase(r, i%6, i%10 == 9))
+		if failed["c04-manager-deadlock"] >= 3 {
+			// every deadlocked history costs a watchdog period and leaves a blocked node behind
+			res.Notes = append(res.Notes, fmt.Sprintf("stopped after %d generated histories: three manager deadlocks with replays", i+1))
+			break
+		}
 	}
 	if c.Thorough {
 		for i := 0; i < 300; i++ {
